@@ -21,19 +21,19 @@ def run(ctx):
     nr = numpy.random.RandomState(ctx.seed * 7 + 1)
     # ---- plain matrices -------------------------------------------------------------------------
     for case in range(30 if quick else 300):
-        dim = rng.choice([6, 8, 12, 20])
-        kind = rng.choice(["generic", "diag-dominant", "degenerate", "complex"])
+        dim = rng.choice([6, 8, 12, 20, 40, 80])
+        kind = rng.choice(["generic", "diag-dominant", "diag-dominant", "diag-dominant-complex", "degenerate", "complex"])
         A = nr.randn(dim, dim)
-        if kind == "complex":
+        if kind in ("complex", "diag-dominant-complex"):
             A = A + 1j * nr.randn(dim, dim)
         H = (A + A.conj().T) / 2
-        if kind == "diag-dominant":
+        if kind.startswith("diag-dominant"):
             H = H * 0.1 + numpy.diag(numpy.arange(dim, dtype=float))
         if kind == "degenerate":
             Q, _ = numpy.linalg.qr(nr.randn(dim, dim))
             ev = numpy.sort(nr.randint(-3, 4, dim).astype(float))
             H = Q @ numpy.diag(ev) @ Q.T
-        nroots = rng.choice([1, 2]) if dim >= 6 else 1
+        nroots = rng.choice([1, 2, 3]) if dim >= 6 else 1
         exact = numpy.linalg.eigvalsh(H)
         desc = {"kind": kind, "dim": dim, "nroots": nroots, "case": case, "seed": ctx.seed}
         try:
@@ -61,18 +61,27 @@ def run(ctx):
             sig = f"davidson:matrix:{kind}"
             ctx.disagree(sig, f"eigenvalue error {err:.2e}, residual/normalisation {res:.2e} (lowest exact {exact[:nroots]}, got {w})", desc)
     # ---- FQE Hamiltonians -------------------------------------------------------------------------
-    for case in range(6 if quick else 60):
-        norb = rng.choice([2, 3])
+    from fqe.hamiltonians import restricted_hamiltonian
+    for case in range(12 if quick else 80):
+        big = case % 3 != 0
+        if big and quick and ctx.path != "C":
+            continue            # the solver code is path independent; the large sectors run on the fast kernels only
+        norb = rng.choice([4, 5]) if big else rng.choice([2, 3])
         na = rng.randint(1, norb - 1) if norb > 2 else 1
         nb = rng.randint(1, norb - 1) if norb > 2 else 1
-        h1 = nr.randn(norb, norb)
-        h1 = (h1 + h1.T) / 2
-        h2 = numpy.zeros((norb,) * 4)
+        if big:
+            norb, na, nb = 5, 2, 2
+        cplx_h = big and rng.random() < 0.6
+        h1 = nr.randn(norb, norb) + (1j * nr.randn(norb, norb) if cplx_h else 0)
+        h1 = (h1 + h1.conj().T) / 2
+        if big:
+            h1 = 0.3 * h1 + numpy.diag(numpy.arange(norb, dtype=float))
+        h2 = numpy.zeros((norb,) * 4, dtype=h1.dtype)
         for _ in range(3):
             i, j, k, l = (rng.randrange(norb) for _ in range(4))
-            z = float(rng.choice([-0.5, 0.25, 0.5]))
+            z = float(rng.choice([-0.5, 0.25, 0.5])) * (0.3 if big else 1.0) * (1j if cplx_h and rng.random() < 0.5 and (i, j, k, l) != (l, k, j, i) else 1)
             h2[i, j, k, l] += z
-            h2[l, k, j, i] += z
+            h2[l, k, j, i] += numpy.conj(z)
         ham = fqe.get_restricted_hamiltonian((h1, h2))
         terms = U.restricted_terms([h1, h2], norb)
         w0 = fqe.Wavefunction([[na + nb, na - nb, norb]])
@@ -81,26 +90,48 @@ def run(ctx):
             continue
         Hm = hmatrix(d, norb, dets, terms, 0.0)
         exact = numpy.linalg.eigvalsh(Hm)
-        desc = {"norb": norb, "nalpha": na, "nbeta": nb, "dim": len(dets), "case": case}
+        key = (na + nb, na - nb)
+        api = "davidsonliu_fqe" if big else rng.choice(["davidson_diagonalization", "davidsonliu_fqe"])
+        nroots = rng.choice([1, 2]) if api == "davidsonliu_fqe" else 1
+        cplx_g = api == "davidsonliu_fqe" and rng.random() < 0.5
+        desc = {"norb": norb, "nalpha": na, "nbeta": nb, "dim": len(dets), "case": case, "api": api, "nroots": nroots,
+                "complex_hamiltonian": bool(cplx_h), "complex_guess_vectors": bool(cplx_g)}
         try:
-            ew, ev = davidson.davidson_diagonalization(ham, na, nb, nroots=1)
+            if api == "davidson_diagonalization":
+                ew, ev = davidson.davidson_diagonalization(ham, na, nb, nroots=1)
+            else:
+                guesses = []
+                shp = w0.get_coeff(key).shape
+                for _ in range(nroots + 1):
+                    g = fqe.Wavefunction([[na + nb, na - nb, norb]])
+                    c = nr.randn(*shp) + (1j * nr.randn(*shp) if cplx_g else 0)
+                    g.set_wfn(strategy="from_data", raw_data={key: c.astype(numpy.complex128)})
+                    g.normalize()
+                    guesses.append(g)
+                ew, ev = davidson.davidsonliu_fqe(ham, nroots, guesses, na + nb, na - nb, norb)
             oc = "returned"
         except davidson.ConvergenceError:
             oc = "ConvergenceError"
         except Exception as exc:
             oc = f"{type(exc).__name__}: {exc}"
-        ctx.case(("fqe", case))
-        ctx.count(f"fqe:{oc.split(':')[0]}")
+        ctx.case(("fqe", case), sample=desc if case < 3 else None)
+        ctx.count(f"fqe:{api}:{oc.split(':')[0]}")
+        ctx.count(f"fqe:complexH={int(cplx_h)}:complexGuess={int(cplx_g)}:nroots={nroots}")
         if oc == "ConvergenceError":
             continue
         if oc != "returned":
-            ctx.disagree(f"davidson:fqe-raises:{oc.split(':')[0]}", f"davidson_diagonalization raised {oc}", desc)
+            ctx.disagree(f"davidson:fqe-raises:{oc.split(':')[0]}", f"{api} raised {oc}", desc)
             continue
-        err = abs(float(numpy.real(ew[0])) - exact[0])
-        vec = vec_of(ev[0], dets)
-        res = float(numpy.linalg.norm(Hm @ vec - ew[0] * vec))
-        if err > 1e-6 or res > 1e-3 or abs(numpy.linalg.norm(vec) - 1) > 1e-6:
-            ctx.disagree("davidson:fqe", f"lowest eigenvalue error {err:.2e}, residual {res:.2e}", desc)
+        err = float(numpy.abs(numpy.sort(numpy.real(numpy.asarray(ew)[:nroots])) - exact[:nroots]).max())
+        res, nerr = 0.0, 0.0
+        for i in range(nroots):
+            vec = vec_of(ev[i], dets)
+            res = max(res, float(numpy.linalg.norm(Hm @ vec - ew[i] * vec)))
+            nerr = max(nerr, abs(float(numpy.linalg.norm(vec)) - 1))
+        if err > 1e-6 or res > 1e-3 or nerr > 1e-6:
+            sig = "davidson:fqe" + (":complex-guess" if cplx_g else "") + (":complex-hamiltonian" if cplx_h else "")
+            ctx.disagree(sig, f"eigenvalue error {err:.2e}, residual {res:.2e}, normalisation error {nerr:.2e} "
+                         f"(exact {exact[:nroots]}, got {numpy.asarray(ew)[:nroots]})", desc)
 
 
 def replay(ctx, rep):
